@@ -418,6 +418,36 @@ STARTS = ["below", "inside", "newest", "above", "zero"]
 CACHES = [1, 2, 3, 7, 1024]
 
 
+def etcd_created_case(seed, i, engine):
+    """the etcd Watch handler: `Created` is the only registration moment a client can observe. A watch from "now"
+    (start revision 0) is acknowledged, THEN the client writes: every such write must be delivered. The handler's call of
+    Backend.Watch is slowed down (cfg watchdelay) so that a handler which acknowledges first and subscribes second has
+    not subscribed yet when the write arrives; the script does not wait for anything but `Created` (nowait=1)."""
+    from . import c16
+    r = rng_for(seed, "c05created/%d" % i)
+    keys = [c16.PREFIX + b"/w%d" % j for j in range(3)]
+    lines = [c16.cfg_line(engine) + " watchdelay=%d" % r.choice([60, 120]),
+             c16.render_txn(c16.t_create(keys[0], b"v0")), "rev",
+             "watch w1 %s - 0 nowait=1" % hx(c16.PREFIX + b"/")]
+    n = r.randint(1, 3)
+    for j in range(n):
+        lines += [c16.render_txn(c16.t_create(keys[1] + b"%d" % j, b"v")), "rev"]
+    lines += ["wevents w1"]
+    return c16.EtcdCase("etcd", lines, {"kind": "etcd-created", "engine": engine, "n": n})
+
+
+def oracle_created(case):
+    n = case.meta["n"]
+    for i, (line, out) in enumerate(zip(case.lines, case.impl)):
+        o = out.split()
+        if line.startswith("wevents") and len(o) >= 3:
+            got = 0 if o[2] == "-" else len(o[2].split(","))
+            if got < n and "canceled" not in out and "compact=1" not in out:
+                return ("line %d: a watch from `now` was acknowledged (Created) before %d acknowledged writes, its stream is open, "
+                        "and it delivered %d of them: %s" % (i + 1, n, got, out[:300]), "created-before-subscribed")
+    return None
+
+
 def build_cases(tier, seed):
     cases = []
     reps = 1 if tier == "quick" else 40
@@ -442,6 +472,8 @@ def build_cases(tier, seed):
                     cases.append(gen_race(seed, i, ["before", "sub_read", "read_decide"][i % 3], st, cache, seqgate=sg))
     for j in range(12 if tier == "quick" else 800):
         cases.append(gen_prefix(seed, j, CACHES[j % len(CACHES)]))
+    for j in range(3 if tier == "quick" else 60):
+        cases.append(etcd_created_case(seed, j, ["memkv", "badger", "tikv"][j % 3]))
     return cases
 
 
@@ -474,7 +506,7 @@ def check(rep, tier, seed):
                 outcomes["streams_closed"] += o[3] == "closed=1"
             elif len(o) == 3 and o[0] == "await" and o[2] == "1":
                 outcomes["parked_registrations" if o[1].startswith("watch.") else "parked_sequencer"] += 1
-        hit = oracle_ring(c) if k == "ring" else oracle_watch(c)
+        hit = oracle_ring(c) if k == "ring" else oracle_created(c) if k == "etcd-created" else oracle_watch(c)
         if hit:
             if core.handle_oracle_hit(rep, "C05", hit[1], c, hit[0], hit[1]):
                 return True
